@@ -227,13 +227,13 @@ func setAlgJob[T comparable](j Job, r *JobResult, s *SetSys[T]) {
 		json.Unmarshal(j.Replay.Aux, &aux)
 		st := Stats{Nested: map[string]int{}}
 		v := safeCheck(func() *Viol { return setAlgCase(s, j.Replay.Path, aux.PathB, aux.Same, aux.Op, &st, build) }, []string{"C13"}, "set algebra case")
-		if v != nil {
+		if v != nil && v.Has(j.Prop) {
 			r.Found = &Found{V: v, Path: j.Replay.Path}
 		}
 		r.St = st
 		return
 	}
-	e := &Explorer{Sys: s, Want: "C13", NoState: true}
+	e := &Explorer{Sys: s, Want: j.Prop, NoState: true, OutGuard: j.Prop == "C17"}
 	if f := e.Run(); f != nil {
 		r.Found = f
 		r.St = e.St
@@ -255,6 +255,12 @@ func setAlgJob[T comparable](j Job, r *JobResult, s *SetSys[T]) {
 				} else if v != nil {
 					aux, _ := json.Marshal(setalgAux{PathB: pb, Same: false, Op: opn})
 					r.Aux = aux
+				}
+				if v == nil && j.Prop == "C17" {
+					v = outGuardCheck("set algebra case")
+				}
+				if v != nil && !v.Has(j.Prop) {
+					v = nil
 				}
 				if v != nil {
 					r.Found = &Found{V: v, Path: pa, Calls: append(append(describePath(s, pa, nil), "-- b built by:"), describePath(s, pb, nil)...)}
